@@ -34,6 +34,16 @@ def classify_kv(rec):
                         if len(t) >= 2 and t[0] == k[1] and isinstance(t[1], str) and any(
                                 isinstance(v, str) and is_prefix_ext(v, t[1]) for v in vals):
                             return "kv-tag-prefix-since"
+    if "until" in f and "tags" in idx:
+        # a stored tag value (same name) extends a requested value by a NUL character and more: its index key carries the
+        # requested value's key as a prefix *and* sorts inside that value's block (the separator is 00 too)
+        for k, vals in f.items():
+            if k.startswith("#") and len(k) == 2:
+                for e in rec["events"]:
+                    for t in e["tags"]:
+                        if len(t) >= 2 and t[0] == k[1] and isinstance(t[1], str) and any(
+                                isinstance(v, str) and t[1].startswith(v + "\x00") for v in vals):
+                            return "kv-tag-nul-extension-window"
     return None
 
 
